@@ -25,6 +25,14 @@ func staticCallee(c ssa.CallInstruction) *ssa.Function {
 		}
 		return f
 	}
+	// a method call on an interface-typed parameter of a helper that is examined on behalf of a call which passes a
+	// value of a concrete type: that type's method
+	if cc.IsInvoke() {
+		if f, _ := devirtualised(cc); f != nil {
+			return f
+		}
+		return nil
+	}
 	// a call through a function-valued parameter of a helper that is examined on behalf of a call which passes a
 	// named function: that function
 	if p, ok := cc.Value.(*ssa.Parameter); ok && !cc.IsInvoke() {
@@ -37,6 +45,58 @@ func staticCallee(c ssa.CallInstruction) *ssa.Function {
 		}
 	}
 	return nil
+}
+
+// devirtualised resolves an interface method call whose receiver is (bound to) a freshly boxed concrete value;
+// it returns the concrete method and the concrete receiver value.
+func devirtualised(cc *ssa.CallCommon) (*ssa.Function, ssa.Value) {
+	v := cc.Value
+	for k := 0; k < 6; k++ {
+		switch x := v.(type) {
+		case *ssa.Parameter:
+			b, ok := paramBindV[x]
+			if !ok || b == nil {
+				return nil, nil
+			}
+			v = b
+			continue
+		case *ssa.ChangeInterface:
+			v = x.X
+			continue
+		case *ssa.MakeInterface:
+			fn := cc.Value.Parent()
+			if fn == nil {
+				if i, ok := cc.Value.(ssa.Instruction); ok {
+					fn = i.Parent()
+				}
+			}
+			if fn == nil || fn.Prog == nil || cc.Method == nil {
+				return nil, nil
+			}
+			m := fn.Prog.LookupMethod(x.X.Type(), cc.Method.Pkg(), cc.Method.Name())
+			if m == nil {
+				return nil, nil
+			}
+			if o := m.Origin(); o != nil {
+				m = o
+			}
+			return m, x.X
+		}
+		break
+	}
+	return nil, nil
+}
+
+// callArgs: the arguments of a call in the callee's parameter order (receiver first for methods), also for a
+// devirtualised interface call (an unresolved interface call keeps its plain argument list).
+func callArgs(c ssa.CallInstruction) []ssa.Value {
+	cc := c.Common()
+	if cc.IsInvoke() {
+		if f, recv := devirtualised(cc); f != nil {
+			return append([]ssa.Value{recv}, cc.Args...)
+		}
+	}
+	return cc.Args
 }
 
 // callees returns all possible callees (static or via the VTA call graph).
@@ -100,11 +160,11 @@ func localFuncSliceCallees(c ssa.CallInstruction) []*ssa.Function {
 					okAll = false
 					continue
 				}
-				if b, isLd := ap.Call.Args[0].(*ssa.UnOp); !isLd || b.X != v {
+				if b, isLd := callArgs(ap)[0].(*ssa.UnOp); !isLd || b.X != v {
 					okAll = false
 					continue
 				}
-				s, isS := ap.Call.Args[1].(*ssa.Slice)
+				s, isS := callArgs(ap)[1].(*ssa.Slice)
 				if !isS {
 					okAll = false
 					continue
@@ -193,6 +253,9 @@ func resolveCell(v ssa.Value) *ssa.Alloc {
 func calleeName(c ssa.CallInstruction) string {
 	cc := c.Common()
 	if cc.IsInvoke() {
+		if f := staticCallee(c); f != nil {
+			return extFuncName(f)
+		}
 		return "invoke:" + typeShort(cc.Value.Type()) + "." + cc.Method.Name()
 	}
 	if f := staticCallee(c); f != nil {
@@ -466,10 +529,11 @@ func descD(v ssa.Value, depth int) string {
 		}
 		return "global:" + pk + "." + x.Name()
 	case *ssa.FieldAddr:
-		if b, ok := rerootBase(x.X); ok {
-			return b + "." + fieldName(x.X.Type(), x.Field)
+		base, _, name := ownerFieldBase(x)
+		if b, ok := rerootBase(base); ok {
+			return b + "." + name
 		}
-		return descD(x.X, depth+1) + "." + fieldName(x.X.Type(), x.Field)
+		return descD(base, depth+1) + "." + name
 	case *ssa.Field:
 		return descD(x.X, depth+1) + "." + fieldName(x.X.Type(), x.Field)
 	case *ssa.UnOp:
@@ -554,13 +618,13 @@ func descD(v ssa.Value, depth int) string {
 		}
 		return fmt.Sprintf("%s#%d", descD(x.Tuple, depth+1), x.Index)
 	case *ssa.Call:
-		if m := bigMethod(x); m != "" && bigMutators[m] && len(x.Call.Args) > 0 {
+		if m := bigMethod(x); m != "" && bigMutators[m] && len(callArgs(x)) > 0 {
 			// returns its receiver
-			return descD(x.Call.Args[0], depth+1)
+			return descD(callArgs(x)[0], depth+1)
 		}
 		name := calleeName(x)
 		if name == "builtin:len" || name == "builtin:cap" {
-			return "len(" + descD(x.Call.Args[0], depth+1) + ")"
+			return "len(" + descD(callArgs(x)[0], depth+1) + ")"
 		}
 		if m := sortedKeysOf(x); m != nil {
 			return "makeslice" // slices.Sorted(maps.Keys(m)): a locally built (sorted) list of m's keys
@@ -574,7 +638,7 @@ func descD(v ssa.Value, depth int) string {
 		if x.Call.IsInvoke() {
 			args = append(args, descD(x.Call.Value, depth+1))
 		}
-		for _, a := range x.Call.Args {
+		for _, a := range callArgs(x) {
 			args = append(args, descD(a, depth+1))
 		}
 		return "call:" + name + "(" + strings.Join(args, ",") + ")"
@@ -602,7 +666,7 @@ func descD(v ssa.Value, depth int) string {
 				}
 			case *ssa.Call:
 				if isCallTo(y, "builtin:append") {
-					walk(y.Call.Args[0])
+					walk(callArgs(y)[0])
 					return
 				}
 				leaves[descD(y, depth+2)] = true
@@ -651,6 +715,11 @@ func descD(v ssa.Value, depth int) string {
 				}
 			}
 		}
+		// a nested struct literal (`Outer{inner: Inner{f: v}}`): go/ssa fills a local Inner and copies it once into
+		// the outer object's field - the local's fields are that field's fields
+		if dst := nestedLiteralDest(x); dst != nil {
+			return descD(dst, depth+1)
+		}
 		et := x.Type().(*types.Pointer).Elem()
 		if n, ok := et.(*types.Named); ok {
 			et = canonNamed(n)
@@ -689,6 +758,49 @@ func descD(v ssa.Value, depth int) string {
 		return "range(" + descD(x.X, depth+1) + ")"
 	}
 	return fmt.Sprintf("%T", v)
+}
+
+// nestedLiteralDest: x is a local struct filled field by field and read exactly once as a whole, that read being
+// stored into a field address; returns that address.
+func nestedLiteralDest(x *ssa.Alloc) ssa.Value {
+	if x.Heap || x.Comment != "complit" {
+		return nil
+	}
+	if _, ok := x.Type().(*types.Pointer).Elem().Underlying().(*types.Struct); !ok {
+		return nil
+	}
+	var load *ssa.UnOp
+	for _, r := range referrersOf(x) {
+		switch u := r.(type) {
+		case *ssa.FieldAddr:
+		case *ssa.UnOp:
+			if u.Op != token.MUL || load != nil {
+				return nil
+			}
+			load = u
+		case *ssa.DebugRef:
+		default:
+			return nil
+		}
+	}
+	if load == nil {
+		return nil
+	}
+	var dst ssa.Value
+	for _, r := range referrersOf(load) {
+		st, ok := r.(*ssa.Store)
+		if !ok || st.Val != ssa.Value(load) || dst != nil {
+			if _, isDbg := r.(*ssa.DebugRef); isDbg {
+				continue
+			}
+			return nil
+		}
+		if _, isFA := st.Addr.(*ssa.FieldAddr); !isFA {
+			return nil
+		}
+		dst = st.Addr
+	}
+	return dst
 }
 
 // constInt returns the int64 value of an integer constant.
@@ -764,32 +876,32 @@ func deps(P *Program, v ssa.Value) map[ssa.Value]bool {
 						push(w.Value)
 					}
 				case *ssa.Call:
-					if m := bigMethod(w); m != "" && bigMutators[m] && len(w.Call.Args) > 0 && w.Call.Args[0] == x {
-						for _, a := range w.Call.Args[1:] {
+					if m := bigMethod(w); m != "" && bigMutators[m] && len(callArgs(w)) > 0 && callArgs(w)[0] == x {
+						for _, a := range callArgs(w)[1:] {
 							push(a)
 						}
 					}
 					// copy(dst, src)
-					if isCallTo(w, "builtin:copy") && w.Call.Args[0] == x {
-						push(w.Call.Args[1])
+					if isCallTo(w, "builtin:copy") && callArgs(w)[0] == x {
+						push(callArgs(w)[1])
 					}
 					// byte-order encoders write their value argument into the buffer: PutUint64(buf, v)
 					if strings.Contains(calleeName(w), ".PutUint") {
-						for _, a := range w.Call.Args {
+						for _, a := range callArgs(w) {
 							if a != x {
 								push(a)
 							}
 						}
 					}
 					// out-parameter idiom of the zkproof lookups: bases.Exp(ret, name, exp, n)
-					if w.Call.IsInvoke() && w.Call.Method.Name() == "Exp" && len(w.Call.Args) == 4 && w.Call.Args[0] == x {
+					if w.Call.IsInvoke() && w.Call.Method.Name() == "Exp" && len(callArgs(w)) == 4 && callArgs(w)[0] == x {
 						push(w.Call.Value)
-						for _, a := range w.Call.Args[1:] {
+						for _, a := range callArgs(w)[1:] {
 							push(a)
 						}
 					}
-					if f := staticCallee(w); f != nil && f.Name() == "Exp" && len(w.Call.Args) == 5 && w.Call.Args[1] == x && inModuleFn(f) {
-						for i, a := range w.Call.Args {
+					if f := staticCallee(w); f != nil && f.Name() == "Exp" && len(callArgs(w)) == 5 && callArgs(w)[1] == x && inModuleFn(f) {
+						for i, a := range callArgs(w) {
 							if i != 1 {
 								push(a)
 							}
@@ -816,8 +928,8 @@ func deps(P *Program, v ssa.Value) map[ssa.Value]bool {
 					// sub-slices alias the same backing store: copy(input[1:...], contributions)
 					if w.X == x {
 						for _, rr := range referrersOf(w) {
-							if c, ok := rr.(*ssa.Call); ok && isCallTo(c, "builtin:copy") && c.Call.Args[0] == w {
-								push(c.Call.Args[1])
+							if c, ok := rr.(*ssa.Call); ok && isCallTo(c, "builtin:copy") && callArgs(c)[0] == w {
+								push(callArgs(c)[1])
 							}
 						}
 					}
@@ -922,7 +1034,7 @@ func (P *Program) reachableFuncs(roots ...*ssa.Function) []*ssa.Function {
 				visit(g)
 			}
 			// closures passed as values
-			for _, a := range c.Common().Args {
+			for _, a := range callArgs(c) {
 				if mc, ok := a.(*ssa.MakeClosure); ok {
 					visit(mc.Fn.(*ssa.Function))
 				}
@@ -1191,14 +1303,14 @@ func computedIntResult(c *ssa.Call, k, depth int) (string, bool) {
 
 // sortedKeysOf: c is slices.Sorted(maps.Keys(m)); returns m.
 func sortedKeysOf(c *ssa.Call) ssa.Value {
-	if calleeName(c) != "slices.Sorted" || len(c.Call.Args) != 1 {
+	if calleeName(c) != "slices.Sorted" || len(callArgs(c)) != 1 {
 		return nil
 	}
-	k, ok := c.Call.Args[0].(*ssa.Call)
-	if !ok || calleeName(k) != "maps.Keys" || len(k.Call.Args) != 1 {
+	k, ok := callArgs(c)[0].(*ssa.Call)
+	if !ok || calleeName(k) != "maps.Keys" || len(callArgs(k)) != 1 {
 		return nil
 	}
-	return k.Call.Args[0]
+	return callArgs(k)[0]
 }
 
 // isPointerLike: pointers, maps, slices, channels, functions, interfaces (values with identity).
